@@ -1,21 +1,53 @@
 package main
 
-import "gopkg.in/typ.v4/arrays"
+import (
+	"strconv"
+
+	"gopkg.in/typ.v4/arrays"
+)
 
 // C08: arrays.Array2D.
 func init() { comps["array2d"] = driveArray2D }
 
 func driveArray2D(plan []M, out *Out, _ []string) {
-	var a, b arrays.Array2D[int]
-	var win []int
+	// element type per plan (chosen by its Reset line): int, or string with "" for 0 and "s<v>" otherwise
+	i := 0
+	for i < len(plan) {
+		j := i + 1
+		for j < len(plan) && str(plan[j], "op") != "Reset" {
+			j++
+		}
+		if str(plan[i], "ty") == "string" {
+			driveArray2DT(plan[i:j], out, "string", func(v int) string {
+				if v == 0 {
+					return ""
+				}
+				return "s" + strconv.Itoa(v)
+			}, func(x string) int {
+				if x == "" {
+					return 0
+				}
+				v, _ := strconv.Atoi(x[1:])
+				return v
+			})
+		} else {
+			driveArray2DT(plan[i:j], out, "int", func(v int) int { return v }, func(v int) int { return v })
+		}
+		i = j
+	}
+}
+
+func driveArray2DT[T any](plan []M, out *Out, ty string, to func(int) T, from func(T) int) {
+	var a, b arrays.Array2D[T]
+	var win []T
 	hasB := false
-	grid := func(a arrays.Array2D[int]) [][]int {
+	grid := func(a arrays.Array2D[T]) [][]int {
 		g := [][]int{}
 		for y := 0; y < a.Height(); y++ {
 			row := []int{}
 			for x := 0; x < a.Width(); x++ {
 				v := -1
-				protect(func() { v = a.Get(x, y) })
+				protect(func() { v = from(a.Get(x, y)) })
 				row = append(row, v)
 			}
 			g = append(g, row)
@@ -45,49 +77,50 @@ func driveArray2D(plan []M, out *Out, _ []string) {
 			}
 		}
 		if op == "Reset" {
-			a, b, win, hasB = arrays.Array2D[int]{}, arrays.Array2D[int]{}, nil, false
+			a, b, win, hasB = arrays.Array2D[T]{}, arrays.Array2D[T]{}, nil, false
+			e["ty"] = ty
 			out.Emit(e)
 			continue
 		}
 		e["panic"] = protect(func() {
 			switch op {
 			case "New":
-				a, win, hasB = arrays.New2D[int](w, h), nil, false
+				a, win, hasB = arrays.New2D[T](w, h), nil, false
 				for y := 0; y < h; y++ {
 					for x := 0; x < w; x++ {
-						a.Set(x, y, 1+x+y*w)
+						a.Set(x, y, to(1+x+y*w))
 					}
 				}
 			case "NewFilled":
-				a, win, hasB = arrays.New2DFilled(w, h, v), nil, false
+				a, win, hasB = arrays.New2DFilled(w, h, to(v)), nil, false
 			case "NewJagged":
 				win, hasB = nil, false
 				lens := ints(c, "lens")
-				jag := make([][]int, len(lens))
+				jag := make([][]T, len(lens))
 				for y, n := range lens {
-					jag[y] = make([]int, n)
+					jag[y] = make([]T, n)
 					for x := range jag[y] {
-						jag[y][x] = 100 + 10*y + x
+						jag[y][x] = to(100 + 10*y + x)
 					}
 				}
-				a = arrays.Array2D[int]{}
+				a = arrays.Array2D[T]{}
 				a = arrays.New2DFromJagged(w, h, jag)
 			case "Set":
-				a.Set(x1, y1, v)
+				a.Set(x1, y1, to(v))
 			case "Get":
-				e["ret"] = a.Get(x1, y1)
+				e["ret"] = from(a.Get(x1, y1))
 			case "Row":
 				win = a.Row(y1)
 			case "RowSpan":
 				win = a.RowSpan(x1, x2, y1)
 			case "WinSet":
-				win[x1] = v
+				win[x1] = to(v)
 			case "Fill":
-				a.Fill(x1, y1, x2, y2, v)
+				a.Fill(x1, y1, x2, y2, to(v))
 			case "Clone":
 				b, hasB = a.Clone(), true
 			case "SetB":
-				b.Set(x1, y1, v)
+				b.Set(x1, y1, to(v))
 			}
 		})
 		e["grid"] = grid(a)
@@ -96,7 +129,11 @@ func driveArray2D(plan []M, out *Out, _ []string) {
 		} else {
 			e["cgrid"] = []int{}
 		}
-		e["win"] = nz(append([]int(nil), win...))
+		wv := []int{}
+		for _, x := range win {
+			wv = append(wv, from(x))
+		}
+		e["win"], e["ty"] = wv, ty
 		e["width"], e["height"] = a.Width(), a.Height()
 		s := ""
 		p2 := protect(func() { s = a.String() })
